@@ -23,6 +23,8 @@ def trace_is_sc(tr):
 
 
 def run(ck, facts, tier):
+    from shared import state
+    state.result_stores(ck, facts, "C11.RESULT-STORES")
     R = "C11.NO-TAINTED-CACHE"
     ck.rule(R, "interprocedural taint (K3/K4): sources = the `!should_continue()` edges (SolveIteration::solve_iteration -> Ambig(Unknown); "
                "ForestSolver::peek_answer -> QuantumExceeded); sinks = Cache::insert (through move_to_cache) and Table::push_answer. "
